@@ -1063,6 +1063,6 @@ MANIFEST = dict(
     level_note="Trusted: python ast; documented exception that eos is ignored for packed input. F26 (log_prob of a sample without "
                "sample dimensions raised), F27 (validation rejected early-ending samples), F30 (packed kernel with a negative dim) and "
                "F31 (sample cache written before scoring) F55 (value not broadcast / uninitialised result), F56 (tokens after eos fed to the model) and F28 (cache stored aliases) were found and repaired.",
-    technique="static analysis: sibling-implementation agreement (step fingerprints), neutral-element tables, argument/slot binding, single-source attribute use, def-use version rule; interpretation of the support check over exact values compared with the documented support",
+    technique="static analysis: sibling-implementation agreement (step fingerprints), neutral-element tables, argument/slot binding, single-source attribute use, def-use version rule; interpretation of the support check over exact values compared with the documented support; RandomWalk.forward interpreted with a scripted sampler leaf and a stateful model leaf (72 walks)",
     design_ref="DESIGN.md section 4 C07",
 )
